@@ -148,11 +148,11 @@ func (w wrapped) addIfMissing(k string, s int64) (bool, bool, bool) {
 	return has, false, false
 }
 func (w wrapped) addRetEvicted(string, int64) map[interface{}]interface{} { panic("not offered") }
-func (w wrapped) get(k string) (interface{}, bool)                         { return w.c.Get([]byte(k)) }
-func (w wrapped) peek(k string) (interface{}, bool)                        { return w.c.Peek([]byte(k)) }
-func (w wrapped) contains(k string) bool                                   { return w.c.Has([]byte(k)) }
-func (w wrapped) remove(k string) (bool, bool)                             { w.c.Remove([]byte(k)); return false, false }
-func (w wrapped) purge()                                                   { w.c.Clear() }
+func (w wrapped) get(k string) (interface{}, bool)                        { return w.c.Get([]byte(k)) }
+func (w wrapped) peek(k string) (interface{}, bool)                       { return w.c.Peek([]byte(k)) }
+func (w wrapped) contains(k string) bool                                  { return w.c.Has([]byte(k)) }
+func (w wrapped) remove(k string) (bool, bool)                            { w.c.Remove([]byte(k)); return false, false }
+func (w wrapped) purge()                                                  { w.c.Clear() }
 func (w wrapped) keys() []string {
 	var r []string
 	for _, k := range w.c.Keys() {
